@@ -64,6 +64,7 @@ extern "C" int LLVMFuzzerTestOneInput(const uint8_t *data, size_t size) {
     if (failed) {
       std::string why;
       if (!api_must_fail(a, why)) why = "method-rejected";
+      if (why.compare(0, 20, "malformed-parameters") == 0) why = "malformed-parameters";
       st.cls("c05-fuzz/" + why + "/" + ENTRY_NAME[a.entry]);
       if (st.nontriv(fnv(c.serialize())) && st.samples.size() < st.sample_cap) st.sample("fuzz: " + api_describe(a) + " -> fails, errno " + std::to_string(o1.err));
     }
